@@ -213,8 +213,10 @@ def run(ctx):
                      st['span'], key=cr.name + '|O3|type')
             dt = f.get('data')
             rx = q.calls(cr, 'asefile::reader::AseReader::read_exact')
-            ok = dt is not None and len(rx) == 1 and q.arg_terms(rx[0])[1] == dt
-            ctx.inst('O3', 'Chunk.data', ok, 'Chunk.data = %s; must be the buffer filled by read_exact' % show(dt)[:100], st['span'],
+            rv_ = q.calls(cr, 'asefile::reader::AseReader::read_vec')
+            ok = dt is not None and ((len(rx) == 1 and q.arg_terms(rx[0])[1] == dt) or
+                                     (len(rv_) == 1 and dt[0] == 'call' and dt[3] == (cr.name, rv_[0].bb)))
+            ctx.inst('O3', 'Chunk.data', ok, 'Chunk.data = %s; must be the payload buffer read for this chunk' % show(dt)[:100], st['span'],
                      key=cr.name + '|O3|data')
 
     # ---------------- O4 lookups / iteration
